@@ -2,8 +2,10 @@
 """One entry per claimed property: what MANIFEST.json says about its check.
 tools/gen_manifest.py turns this table into /verif/MANIFEST.json."""
 
-TECHNIQUE = ("machine-checked proof in Coq 8.16.1 (theorems about an executable Gallina model) "
-             "+ correspondence check model-vs-implementation (cases.v / vm_compute)")
+TECHNIQUE = ("machine-checked proof in Coq 8.16.1 (theorems about an executable Gallina model); the model is tied "
+             "to /repo on every run (a) by source translators (fail-closed Python-ast readers regenerating coq/Gen/*.v, "
+             "with GenAgree lemmas re-proved for all inputs) and (b) by a correspondence check "
+             "model-vs-implementation (cases.v / vm_compute)")
 
 CHECKS = {
     "C20": {
